@@ -4,8 +4,10 @@ import (
 	"testing"
 
 	"verif/sim/kernel"
-	_ "verif/sim/rigs/votesrig"
+	"verif/sim/rigs/c03rig"
 )
+
+func init() { kernel.Register(c03rig.Rig()) }
 
 func TestMain(m *testing.M) { kernel.Main(m, "C03") }
 func TestSim(t *testing.T)  { kernel.Worker(t, "C03") }
